@@ -18,10 +18,13 @@ def digitsToNat (s : Bytes) : Option Nat :=
 /-- read back "Y+-MM-DD hh:mm:ss[.f{1,7}]" → (unix seconds, 100 ns ticks) -/
 def readTime (s : Bytes) : Option (Int × Nat) :=
   match (s.splitOn 32) with
-  | [date, clock] =>
+  | [date0, clock] =>
+    -- a year before 0 is written with a leading minus sign
+    let neg := date0.head? = some 45
+    let date := if neg then date0.drop 1 else date0
     match date.splitOn 45, clock.splitOn 46 with
     | [y, m, d], hms :: fracs =>
-      match digitsToNat y, digitsToNat m, digitsToNat d, (hms.splitOn 58).mapM digitsToNat with
+      match (digitsToNat y).map (fun (v : Nat) => if neg then -(v : Int) else (v : Int)), digitsToNat m, digitsToNat d, (hms.splitOn 58).mapM digitsToNat with
       | some y, some m, some d, some [hh, mi, ss] =>
         let frac : Option Nat := match fracs with
           | [] => some 0
